@@ -8,6 +8,8 @@ SelfTerm(CT, c) == Cls(c, [i \in DOMAIN CT[c].tp |-> Var(CT[c].tp[i].n, CT[c].tp
 \* a bare generic class on the left of a subtype judgement is read as its self type
 AsType(CT, r) == IF r.k = "K" THEN SelfTerm(CT, r.n) ELSE r
 \* the bound that stands for a type variable (transitively), or the variable itself when it has none
+RECURSIVE HasIn(_)
+HasIn(t) == (t.k = "W" /\ t.n = "in") \/ \E i \in DOMAIN t.a : HasIn(t.a[i])
 RECURSIVE Hat(_)
 Hat(T) == IF T.k = "V" /\ T.a # <<>> THEN Hat(T.a[1]) ELSE T
 
@@ -33,6 +35,54 @@ RECURSIVE InOverProjection(_)
 InOverProjection(T) ==
   \/ T.k = "W" /\ T.n = "in" /\ T.a # <<>> /\ HasKind(T.a[1], {"W"})
   \/ \E i \in DOMAIN T.a : InOverProjection(T.a[i])
+\* ---- C08: instantiation helpers -------------------------------------------------------------------------------------
+\* tps     : Seq([n, v, b])            the type parameters being instantiated (of a class or of a generic function)
+\* pre     : name |-> term             assignments requested by the caller (partial)
+\* choices : [on, m]   on = FALSE: the caller passes no variance choices (no projection anywhere);
+\*                     m : name |-> <<canOut, canIn>>, a missing name means <<TRUE, TRUE>>
+\* sw      : [disUse, disContra]       the global switches
+\* args    : Seq(term)                 the result, one argument per parameter
+Core1(a) == IF a.k = "W" /\ a.a # <<>> THEN a.a[1] ELSE a
+ArgMap(tps, args) == [x \in {tps[i].n : i \in DOMAIN tps} |-> args[CHOOSE i \in DOMAIN tps : tps[i].n = x]]
+MentionedByOther(tps, i) == \E j \in DOMAIN tps : j # i /\ tps[j].b # <<>> /\ tps[i].n \in FreeVars(tps[j].b[1])
+Bit(choices, n, pol) == IF n \in DOMAIN choices.m THEN choices.m[n][IF pol = "out" THEN 1 ELSE 2] ELSE TRUE
+Allowed(tps, choices, sw, i, pol) ==
+  /\ choices.on
+  /\ pol \in {"out", "in"}
+  /\ Bit(choices, tps[i].n, pol)
+  /\ (tps[i].v = "inv" \/ tps[i].v = pol)
+  /\ ~sw.disUse
+  /\ (pol = "in" => ~sw.disContra)
+  /\ ~MentionedByOther(tps, i)
+\* is a requested assignment consistent with the parameter's bound (given the other arguments)?
+PreConsistent(CT, tps, args, i) ==
+  tps[i].b = <<>> \/ (LET a == args[i] IN (a.k = "W" /\ a.a = <<>>) \/ SubTop(CT, Core1(a), Up(CT, tps[i].b[1], ArgMap(tps, args))))
+\* (each clause is a named operator: is there a parameter i at which it fails?)
+WithinBoundFails(CT, tps, pre, args, i) ==
+  LET m == ArgMap(tps, args) IN
+  (tps[i].n \notin DOMAIN pre) /\ (tps[i].b # <<>>) /\ (args[i].k # "W" \/ args[i].n = "out")
+  /\ (\A j \in DOMAIN tps : (tps[j].n \in DOMAIN pre /\ tps[j].n \in FreeVars(tps[i].b[1])) => PreConsistent(CT, tps, args, j))
+  /\ ~SubTop(CT, Core1(args[i]), Up(CT, tps[i].b[1], m))
+RequestedKeptFails(CT, tps, pre, args) ==
+  \* demanded when keeping every request would have been consistent with the bounds, given what was chosen for the others
+  LET want == [i \in DOMAIN tps |-> IF tps[i].n \in DOMAIN pre THEN pre[tps[i].n] ELSE args[i]] IN
+  (\A j \in DOMAIN tps : PreConsistent(CT, tps, want, j))
+  /\ (\E i \in DOMAIN tps : (tps[i].n \in DOMAIN pre) /\ (args[i] # pre[tps[i].n])
+                              /\ ~(args[i].k = "W" /\ pre[tps[i].n].k # "W" /\ Core1(args[i]) = pre[tps[i].n]))
+ProjectionFails(tps, pre, choices, sw, args, i) ==
+  (args[i].k = "W") /\ ~(tps[i].n \in DOMAIN pre /\ pre[tps[i].n] = args[i]) /\ ~Allowed(tps, choices, sw, i, args[i].n)
+DeepFails(tps, pre, choices, sw, args, i) ==     \* below the top level of an argument
+  (tps[i].n \notin DOMAIN pre) /\ (((~choices.on \/ sw.disUse) /\ HasKind(Core1(args[i]), {"W"})) \/ (sw.disContra /\ HasIn(Core1(args[i]))))
+InstBad(CT, tps, pre, choices, sw, args, map) ==
+  IF Len(args) # Len(tps) THEN {"OneArgumentPerParameter"} ELSE
+  {cl \in {"WithinBound", "NoPrimitiveOrBareArgument", "RequestedKept", "ProjectionAllowed", "SwitchesDeep", "MapConsistent"} :
+     CASE cl = "WithinBound" -> \E i \in DOMAIN tps : WithinBoundFails(CT, tps, pre, args, i)
+       [] cl = "NoPrimitiveOrBareArgument" -> \E i \in DOMAIN tps : (tps[i].n \notin DOMAIN pre) /\ HasKind(args[i], {"P", "K"})
+       [] cl = "RequestedKept" -> RequestedKeptFails(CT, tps, pre, args)
+       [] cl = "ProjectionAllowed" -> \E i \in DOMAIN tps : ProjectionFails(tps, pre, choices, sw, args, i)
+       [] cl = "SwitchesDeep" -> \E i \in DOMAIN tps : DeepFails(tps, pre, choices, sw, args, i)
+       [] cl = "MapConsistent" -> \E i \in DOMAIN tps : (tps[i].n \notin DOMAIN map) \/ (map[tps[i].n] # args[i])}
+
 \* known-finding shape: the query mentions a class one of whose parameters is bounded by another of its parameters
 \* (class D<X, Y : X>); _construct_related_types handles such pairs heuristically
 RECURSIVE DependentParam(_, _)
